@@ -515,7 +515,7 @@ def main(argv=None):
         print("not reproduced")
         return 0
     quick = a.tier == "quick"
-    ev = common.Evidence(PROP, a.tier, a.seed, "exploration", "(api) 1..4 ThrottleStreamIO streams over simulated connections sharing / not sharing Throttle objects, seeded traces of chunk sizes and idle gaps around reset_rate, limits 1..1e7 / None / 0, opposite-direction limit on/off; (e2e) real server with seeded combinations of the five limit levels x two directions, 1..5 client sessions of two users with staggered lifetimes, uploads / downloads of 0.5..25 blocks, optional client limits; every recorded I/O is checked against the cumulative-rate bound and the no-over-delay bound of every scope that is meant to govern it, and for zero added delay when none does; non-trivial = at least one I/O was actually delayed by a throttle; distinct = distinct run digests")
+    ev = common.Evidence(PROP, a.tier, a.seed, "exploration", "(api) 1..4 ThrottleStreamIO streams over simulated connections sharing / not sharing Throttle objects, seeded traces of chunk sizes and idle gaps around reset_rate, limits 1..1e7 / None / 0, opposite-direction limit on/off; (e2e) real server with seeded combinations of the five limit levels x two directions, 1..5 client sessions of two users with staggered lifetimes, uploads / downloads of 0.5..25 blocks, optional client limits; every recorded I/O is checked against the cumulative-rate bound and the no-over-delay bound of every scope that is meant to govern it, and for zero added delay when none does; non-trivial = at least one I/O was actually delayed by a throttle; distinct = distinct run digests About a third of the end-to-end sessions log in again as the other user with the passive listener already open.")
     rep = common.Reporter(PROP, ev)
     deadline = time.time() + (a.budget or (75 if quick else 1500))
     n = 2500 if quick else 300000
